@@ -28,6 +28,7 @@ def gen(rng, tier):
     ctx.p_simsource = rng.choice([0.7, 0.9, 1.0])
     ctx.p_masked = 0.0
     ctx.p_simlock = rng.choice([0.0, 0.5, 1.0])
+    ctx.p_lazy_source = rng.choice([0.0, 0.5, 1.0])
     ctx.p_custom_getitem = rng.choice([0.0, 0.2])
     ctx.p_auto_chunks = 0.1
     ctx.allow_fancy = rng.random() < 0.4
